@@ -5,7 +5,8 @@ CONSTANTS
   SepLens <- SL2
   WidthRule = "full"
   ExpandRule = "atleast1"
+  CsvCtx = "own"
 INIT Init
 NEXT Next
-INVARIANTS TypeOK ProtocolInv RectInv OffsetsInv StyleInv HeaderInv ShowsInv DotsInv SkeletonInv TightInv
+INVARIANTS TypeOK ProtocolInv RectInv OffsetsInv StyleInv HeaderInv ShowsInv DotsInv SkeletonInv TightInv CsvInv
 CHECK_DEADLOCK FALSE
